@@ -4,7 +4,7 @@
 set -uo pipefail
 export GOFLAGS=-mod=mod GOPROXY=off GOSUMDB=off GOTOOLCHAIN=local
 D=$(cd "$1" && pwd)
-WT=/tmp/seedverify.wt   # fixed path: the Go build cache is keyed by absolute paths, fresh paths fill the disk
+WT=${SEEDVERIFY_WT:-/tmp/seedverify.wt}   # fixed paths: the Go build cache is keyed by absolute paths, fresh paths fill the disk
 git -C /repo worktree remove --force "$WT" >/dev/null 2>&1; rm -rf "$WT"; git -C /repo worktree prune
 git -C /repo worktree add --detach "$WT" HEAD >/dev/null 2>&1 || { echo "worktree failed"; exit 2; }
 trap 'git -C /repo worktree remove --force "$WT" >/dev/null 2>&1; rm -rf "$WT"' EXIT
